@@ -24,6 +24,7 @@ MANIFEST = dict(
 
 KNOWN_PRED = {
     'C02-simple-escape-kept': lambda kind, case, detail: kind == 'denotation' and case.get('value_ident_escape'),
+    'C02-margin-box-comments-dropped': lambda kind, case, detail: kind == 'denotation' and case.get('family') == 'margin-box-comments',
 }
 
 
@@ -136,6 +137,18 @@ def directed_families(ctx):
             nocom = S.strip_comments(v1 or '').replace(' ', '') if v1 else None
             if v1 is None or nocom != ('calc(%s)' % expr).replace(' ', '') or len(got) != len(want) or len(got[0][2]) != len(want[0][2]):
                 ctx.violation('denotation', case, 'width reads %r (without comments %r), expected calc(%s); sheet %r' % (v1, nocom, expr, got), KNOWN_PRED)
+    # comments inside the declaration block of a margin box
+    for text in ('@page{@top-left{/*c*/ left:0 /*d*/}}', '@page { margin: 0; @bottom-center { content: "x" /*e*/; /*f*/ } }'):
+        case = {'text': text, 'family': 'margin-box-comments'}
+        ctx.case(text)
+        try:
+            out = parse(text).cssText.decode()
+        except Exception as e:
+            ctx.violation('raises', case, '%s: %s' % (type(e).__name__, e), KNOWN_PRED)
+            continue
+        want = S.strip_comments('x') and [c for c in ('/*c*/', '/*d*/', '/*e*/', '/*f*/') if c in text]
+        if any(c not in out for c in want):
+            ctx.violation('denotation', case, 'comments %r of the margin box are not in the DOM (serialised: %r)' % (want, out), KNOWN_PRED)
     # (2)
     ANY = '*ANY*'
     NEG = [('@namespace p "u"; b:not(p|a){l:0}', [(None, 'b'), ('u', 'a')]),
